@@ -133,7 +133,8 @@ def gen_cases(tier, seed, prop):
     cases = []
     if tier == "quick":
         # the world row always (the only row where every species coexists), the other hostile rows in rotation
-        sel = ["WOR"] + [i for i in workload.rotate(hostile, seed) if i != "WOR"][:13] + rnd.sample(isos, 10)
+        sel = ["WOR"] + workload.zero_rows(seed, 3) + [i for i in workload.rotate(hostile, seed) if i != "WOR"][:13] + rnd.sample(isos, 10)
+        sel = list(dict.fromkeys(sel))
         per = 4
     else:
         sel = isos + ["WOR"]
